@@ -360,6 +360,11 @@ impl Condvar {
     let mutex = guard.mutex;
     match guard.rel.take() {
       Some((ctx, m)) => {
+        // a thread can be preempted between testing its predicate and starting to wait
+        // (still holding the mutex): a notify sent without the mutex is lost there
+        guard.rel = Some((ctx.clone(), m));
+        rt::post_acquire_point(&ctx);
+        guard.rel = None;
         // release the real mutex, then (atomically in the model) release + wait
         guard.inner = None;
         drop(guard);
@@ -397,14 +402,20 @@ impl Condvar {
 
   pub fn notify_one(&self) {
     match rt::current() {
-      Some(ctx) => rt::cond_notify(&ctx, self.addr(), false),
+      Some(ctx) => {
+        rt::post_acquire_point(&ctx);
+        rt::cond_notify(&ctx, self.addr(), false)
+      }
       None => self.inner.notify_one(),
     }
   }
 
   pub fn notify_all(&self) {
     match rt::current() {
-      Some(ctx) => rt::cond_notify(&ctx, self.addr(), true),
+      Some(ctx) => {
+        rt::post_acquire_point(&ctx);
+        rt::cond_notify(&ctx, self.addr(), true)
+      }
       None => self.inner.notify_all(),
     }
   }
